@@ -7,6 +7,7 @@ import (
 	"io"
 	"net"
 	"net/http"
+	"net/url"
 	"os"
 	"strings"
 
@@ -39,9 +40,10 @@ func NewAtlasClient(httpClient *http.Client) *AtlasClient {
 }
 
 func (c *AtlasClient) getAtlasClusterInfo(ctx context.Context, publicKey, privateKey, projectID, clusterName string) (*AtlasClusterInfo, error) {
-	url := fmt.Sprintf("%s/api/atlas/v2/groups/%s/clusters/%s", c.BaseURL, projectID, clusterName)
+	// the names are single path segments, whatever characters they hold
+	clusterURL := fmt.Sprintf("%s/api/atlas/v2/groups/%s/clusters/%s", c.BaseURL, url.PathEscape(projectID), url.PathEscape(clusterName))
 
-	req, err := http.NewRequestWithContext(ctx, http.MethodGet, url, nil)
+	req, err := http.NewRequestWithContext(ctx, http.MethodGet, clusterURL, nil)
 	if err != nil {
 		return nil, fmt.Errorf("failed to create request: %w", err)
 	}
@@ -147,12 +149,13 @@ func (c *AtlasClient) DeleteClusterLogs(ctx context.Context, logFiles []string) 
 }
 
 func (c *AtlasClient) downloadClusterLogsForHost(ctx context.Context, publicKey, privateKey, projectID, host string, startDate int, endDate int) (string, error) {
-	url := fmt.Sprintf(
+	// the host comes percent-decoded out of the connection string: it is one path segment
+	logsURL := fmt.Sprintf(
 		"%s/api/atlas/v2/groups/%s/clusters/%s/logs/mongodb.gz?endDate=%d&startDate=%d",
-		c.BaseURL, projectID, host, endDate, startDate,
+		c.BaseURL, url.PathEscape(projectID), url.PathEscape(host), endDate, startDate,
 	)
 
-	req, err := http.NewRequestWithContext(ctx, http.MethodGet, url, nil)
+	req, err := http.NewRequestWithContext(ctx, http.MethodGet, logsURL, nil)
 	if err != nil {
 		return "", fmt.Errorf("failed to create request: %w", err)
 	}
@@ -194,7 +197,7 @@ func (c *AtlasClient) downloadClusterLogsForHost(ctx context.Context, publicKey,
 		return "", fmt.Errorf("unexpected status %d: %s", resp.StatusCode, string(body))
 	}
 
-	tmpFile, err := os.CreateTemp("", fmt.Sprintf("mongod_%s_%d_%d_*.log.gz", host, startDate, endDate))
+	tmpFile, err := os.CreateTemp("", fmt.Sprintf("mongod_%s_%d_%d_*.log.gz", url.PathEscape(host), startDate, endDate))
 	if err != nil {
 		return "", fmt.Errorf("failed to create temp file: %w", err)
 	}
